@@ -512,7 +512,9 @@ H_mevt(r) ==
                 subscribed(k) == \E c \in DOMAIN o.conns : o.conns[c].alive /\
                                     \E rid \in Held(o.conns[c].direct, o.conns[c].res) : Get(o.norm, KeyOf(o.conns[c], rid), KeyOf(o.conns[c], rid)) = k
                 cached == {k \in hit \ o.window : Get(o.keyq, k, "") = "" \/ subscribed(k)}
-                obl == {[key |-> k, l |-> l] : k \in cached \cup pendInit}
+                \* a re-fetch that is still unanswered serves this reset as well
+                refPend == {o.mqpend[x].key : x \in {y \in DOMAIN o.mqpend : o.mqpend[y].t = "get" /\ o.mqpend[y].refetch}}
+                obl == {[key |-> k, l |-> l] : k \in (cached \cup pendInit) \ refPend}
                 ct2 == [n \in DOMAIN o.ctrig \cup SeqToSet(r.matchacc) |->
                            IF n \in SeqToSet(r.matchacc) THEN Append(Get(o.ctrig, n, <<>>), l) ELSE o.ctrig[n]]
             IN Res([o EXCEPT !.window = @ \cup hit, !.ctrig = ct2, !.resetObl = @ \cup obl], {})
